@@ -238,10 +238,17 @@ def pipeline_cases(draw):
             pipe[name] = {"filter_method": "bilateral", "sigma_space": draw(st.sampled_from([0.7, 1.0])),
                           "sigma_color": draw(st.sampled_from([0.5, 2.0]))}
 
+    val_at = draw(st.sampled_from([None, None, "first", "second"]))
+    val_cfg = {"validation_method": "cross_checking_accurate", "cross_checking_threshold": draw(st.sampled_from([0, 1.0]))}
     filt("filter")
+    if val_at == "first":
+        # a refinement placed AFTER the cross-check: the pixels it flagged (bits 8 / 9) are invalid and must stay untouched
+        pipe["validation"] = val_cfg
     pipe["refinement"] = {"refinement_method": draw(st.sampled_from(["vfit", "quadratic"]))}
-    if draw(st.booleans()):
+    if draw(st.booleans()) or val_at == "second":
         filt("filter.2")
+        if val_at == "second":
+            pipe["validation"] = val_cfg
         pipe["refinement.2"] = {"refinement_method": draw(st.sampled_from(["vfit", "quadratic"]))}
     dmin = draw(st.integers(-4, 1))
     dmax = dmin + draw(st.integers(1, 4))
@@ -254,34 +261,46 @@ def pipeline_body(ctx: Ctx, p: dict) -> None:
     pipe = gen.pipe_dict(p["pipeline"])
     captured = []
 
+    def sides(machine):
+        out = [("left", machine.left_cv, machine.left_disparity)]
+        if machine.right_disparity is not None and "disparity_map" in machine.right_disparity and machine.right_cv is not None:
+            out.append(("right", machine.right_cv, machine.right_disparity))  # with a validation step the right map is refined too
+        return out
+
     def before(machine, step, kind):
         if kind == "refinement":
-            captured.append({
-                "step": step,
-                "cv": machine.left_cv["cost_volume"].data.copy(),
-                "axis": machine.left_cv.coords["disp"].data.copy(),
-                "type": machine.left_cv.attrs["type_measure"],
-                "subpix": machine.left_cv.attrs["subpixel"],
-                "d": machine.left_disparity["disparity_map"].data.copy(),
-                "m": machine.left_disparity["validity_mask"].data.copy(),
-            })
+            for side, cv, dsp in sides(machine):
+                captured.append({
+                    "step": step, "side": side,
+                    "cv": cv["cost_volume"].data.copy(),
+                    "axis": cv.coords["disp"].data.copy(),
+                    "type": cv.attrs["type_measure"],
+                    "subpix": cv.attrs["subpixel"],
+                    "d": dsp["disparity_map"].data.copy(),
+                    "m": dsp["validity_mask"].data.copy(),
+                })
 
     def after(machine, step, kind):
         if kind == "refinement":
-            cap = captured[-1]
-            cap["d_a"] = machine.left_disparity["disparity_map"].data.copy()
-            cap["m_a"] = machine.left_disparity["validity_mask"].data.copy()
-            cap["coeff"] = machine.left_disparity["interpolated_coeff"].data.copy()
+            for side, cv, dsp in sides(machine):
+                cap = next(c for c in reversed(captured) if c["step"] == step and c["side"] == side)
+                cap["d_a"] = dsp["disparity_map"].data.copy()
+                cap["m_a"] = dsp["validity_mask"].data.copy()
+                cap["coeff"] = dsp["interpolated_coeff"].data.copy()
 
     drive.run_pipeline(left, right, pipe, tuple(p["disp"]), msk_left=ml, msk_right=mr,
                        valid=p["pair"]["valid"], nodata=p["pair"]["nodata"], spy=drive.Spy(after=after, before=before))
     tot = [0, 0, 0]
     for cap in captured:
         method = pipe[cap["step"]]["refinement_method"]
-        res = judge(ctx, cap["step"], method, cap["cv"], cap["axis"], cap["type"], cap["subpix"], cap["d"], cap["m"],
+        res = judge(ctx, f"{cap['side']} {cap['step']}", method, cap["cv"], cap["axis"], cap["type"], cap["subpix"], cap["d"], cap["m"],
                     cap["d_a"], cap["m_a"], cap["coeff"])
         tot = [a + b for a, b in zip(tot, res)]
-    classes = [f"refinements={len(captured)}"]
+    classes = [f"refinements={len([c for c in captured if c['side'] == 'left'])}"]
+    if "validation" in pipe:
+        classes.append("refinement-after-validation")
+    if any(c["side"] == "right" for c in captured):
+        classes.append("right-map")
     if any(k.startswith("filter") for k in pipe):
         classes.append("after-filter")
     if "aggregation" in pipe:
